@@ -808,6 +808,13 @@ func saveCase(r *lib.Run, sv *serverT, fname string) {
 		sumReported = true
 		r.Viol("save-without-valid-checksum", "saveConfig wrote a lease file whose integrity verdict is "+toks[0], "")
 	}
+	// hypothesis hex_no_nl (and the shape of the integrity line): "checksum: " + 64 lower-case hex digits + newline
+	if i := bytes.IndexByte(txt, 10); i != 74 || !bytes.HasPrefix(txt, []byte("checksum: ")) || strings.Trim(string(txt[10:74]), "0123456789abcdef") != "" {
+		if !sumReported {
+			sumReported = true
+			r.Viol("save-integrity-line-shape", fmt.Sprintf("first line of the saved file is %q", txt[:min(len(txt), 80)]), "")
+		}
+	}
 	obs := "unreadable"
 	if isDoc(toks[0]) {
 		obs = "-"
@@ -820,4 +827,11 @@ func saveCase(r *lib.Run, sv *serverT, fname string) {
 		}
 	}
 	r.Case("save", tableTokens(sv.h.VerifLeases()), obs)
+}
+
+func min(a, b int) int {
+	if a < b {
+		return a
+	}
+	return b
 }
